@@ -70,8 +70,18 @@ Init == /\ doc0 \in Docs
         /\ doc = doc0
         /\ hist = <<>>
 
+\* negative array indices are a documented extension of the pointer implementation and outside the
+\* universe (DESIGN.md section 7); a move can turn a member name like "-1" into one, because removing
+\* the source shifts the indices its target path goes through
+IsNegIndex(tok) == Len(tok) >= 2 /\ tok[1] = 45 /\ \A i \in 2..Len(tok) : IsDigit(tok[i])
+NegIndexOnArray(d, path) == path # <<>> /\ IsNegIndex(Last(path)) /\ ~IsErr(Resolve(d, Front(path))) /\ Resolve(d, Front(path)).t = "arr"
+UsesNegativeIndex(d, op) ==
+  \/ NegIndexOnArray(d, op.path)
+  \/ (op.op = "move" /\ ~IsErr(OpRemove(d, op.from)) /\ NegIndexOnArray(OpRemove(d, op.from), op.path))
+
 Apply(op) ==
   /\ ~IsErr(doc)
+  /\ ~UsesNegativeIndex(doc, op)
   /\ Len(hist) < MaxOps
   /\ doc' = ApplyOp(doc, op)
   /\ hist' = Append(hist, [op |-> op.op, path |-> PrintPtr(op.path), from |-> PrintPtr(op.from),
